@@ -3,7 +3,11 @@ package main
 import (
 	"bufio"
 	"bytes"
+	"crypto/ecdsa"
 	"crypto/ed25519"
+	"crypto/elliptic"
+	crand "crypto/rand"
+	"crypto/rsa"
 	"crypto/sha256"
 	stdx509 "crypto/x509"
 	"crypto/x509/pkix"
@@ -13,6 +17,7 @@ import (
 	"fmt"
 	"math/rand"
 	"os"
+	"sync"
 	"time"
 
 	"go.brendoncarroll.net/p2p"
@@ -51,6 +56,7 @@ type KCase struct {
 	ID   string     `json:"id"`
 	TC   CTextClass `json:"tc"`
 	A    string     `json:"a"`
+	Std  string     `json:"std"`
 	B    string     `json:"b"`
 }
 
@@ -65,12 +71,14 @@ type KModel struct {
 	Arcs2  []MArc `json:"arcs2"`
 	Text   []int  `json:"text"`
 	// idtext: id is the id the text was derived from; idpair: a, b, ta, cmp
-	IDBytes []int `json:"id"`
-	A       []int `json:"a"`
-	B       []int `json:"b"`
-	TA      []int `json:"ta"`
-	DerLen  int   `json:"derlen"`
-	Cmp     int   `json:"cmp"`
+	IDBytes []int    `json:"id"`
+	A       []int    `json:"a"`
+	B       []int    `json:"b"`
+	TA      []int    `json:"ta"`
+	DerLen  int      `json:"derlen"`
+	Cmp     int      `json:"cmp"`
+	Forms   []string `json:"forms"`
+	Accepts []bool   `json:"accepts"`
 }
 
 type KeysCaseLine struct {
@@ -110,22 +118,31 @@ type KEvent struct {
 	EqualBA bool `json:"equalba"`
 	EncEq   bool `json:"enceq"`
 	// peer id text
-	TB        []int  `json:"tb"`
-	Err       bool   `json:"err"`
-	ID        []int  `json:"id"`
-	Back      []int  `json:"back"`
-	A         []int  `json:"a"`
-	B         []int  `json:"b"`
-	TA        []int  `json:"ta"`
-	Cmp       int    `json:"cmp"`
-	CmpBA     int    `json:"cmpba"`
-	Lt        bool   `json:"lt"`
-	UErr      bool   `json:"uerr"`
-	UBack     []int  `json:"uback"`
-	MCmp      int    `json:"mcmp"`
-	TextDrift bool   `json:"textdrift"`
-	Panic     bool   `json:"panic"`
-	PanicV    string `json:"panicv"`
+	TB        []int `json:"tb"`
+	Err       bool  `json:"err"`
+	ID        []int `json:"id"`
+	Back      []int `json:"back"`
+	A         []int `json:"a"`
+	B         []int `json:"b"`
+	TA        []int `json:"ta"`
+	Cmp       int   `json:"cmp"`
+	CmpBA     int   `json:"cmpba"`
+	Lt        bool  `json:"lt"`
+	UErr      bool  `json:"uerr"`
+	UBack     []int `json:"uback"`
+	MCmp      int   `json:"mcmp"`
+	TextDrift bool  `json:"textdrift"`
+	// wires: one entry per wire form of the case
+	Forms  []string `json:"forms"`
+	Acc    []bool   `json:"acc"`
+	MAcc   []bool   `json:"macc"`
+	M      []string `json:"m"`
+	Idem   []bool   `json:"idem"`
+	FpK    []string `json:"fpk"`
+	FpQ    []string `json:"fpq"`
+	Eq     [][]bool `json:"eq"`
+	Panic  bool     `json:"panic"`
+	PanicV string   `json:"panicv"`
 }
 
 func arcsOf(ms []MArc) []int {
@@ -276,6 +293,8 @@ func buildDER(form string, arcs []int, body []byte, r *rand.Rand, v int) []byte 
 		params = []byte{0x05, 0x00}
 	case "params-oid":
 		params = []byte{0x06, 0x03, 0x2a, 0x03, 0x04}
+	case "params-junk": // an arbitrary small DER value
+		params = [][]byte{{0x04, 0x02, 0xaa, 0xbb}, {0x02, 0x01, 0x07}, {0x30, 0x03, 0x01, 0x01, 0xff}, {0x0c, 0x01, 0x78}}[r.Intn(4)]
 	case "unused-bits":
 		unused = 4
 		if v > 0 {
@@ -332,8 +351,119 @@ func (h *keysRun) fpBoth(k *x509.PublicKey, site string) {
 }
 
 type keysRun struct {
-	w   *trace.Writer
-	nfp int
+	w      *trace.Writer
+	nfp    int
+	nwires int
+}
+
+var (
+	stdOnce sync.Once
+	stdRSA  *rsa.PrivateKey
+	stdEC   *ecdsa.PrivateKey
+)
+
+// stdSPKI returns a standard SubjectPublicKeyInfo as crypto/x509 writes it.
+func stdSPKI(kind string, r *rand.Rand) []byte {
+	stdOnce.Do(func() {
+		stdRSA, _ = rsa.GenerateKey(crand.Reader, 1024)
+		stdEC, _ = ecdsa.GenerateKey(elliptic.P256(), crand.Reader)
+	})
+	var pub any
+	switch kind {
+	case "rsa":
+		pub = &stdRSA.PublicKey
+	case "ecdsa-p256":
+		pub = &stdEC.PublicKey
+	case "ed25519":
+		seed := make([]byte, 32)
+		r.Read(seed)
+		pub = ed25519.NewKeyFromSeed(seed).Public()
+	default:
+		fatal("unknown standard key kind", kind)
+	}
+	der, err := stdx509.MarshalPKIXPublicKey(pub)
+	if err != nil {
+		fatal(err)
+	}
+	return der
+}
+
+type spki struct {
+	Algo pkix.AlgorithmIdentifier
+	Key  asn1.BitString
+}
+
+// runWires: the parse-first direction.  Every wire form of the case goes through ParsePublicKey; for the
+// accepted ones the re-marshalled encoding, its idempotence, both fingerprints and the EqualPublicKeys
+// matrix are logged.  Which forms are accepted is the code's choice; the laws are KeysTrace's.
+func runWires(ev *KEvent, c *KeysCaseLine, v int, r *rand.Rand) {
+	var forms []string
+	var wires [][]byte
+	if c.C.Std != "" && c.C.Std != "none" {
+		ev.Class = "std-" + c.C.Std
+		w := stdSPKI(c.C.Std, r)
+		var x spki
+		if _, err := asn1.Unmarshal(w, &x); err != nil {
+			fatal("cannot re-read a standard SPKI:", err)
+		}
+		with := func(p asn1.RawValue) []byte {
+			y := x
+			y.Algo.Parameters = p
+			der, err := asn1.Marshal(y)
+			if err != nil {
+				fatal(err)
+			}
+			return der
+		}
+		forms = []string{"std", "std-no-params", "std-params-null", "std-params-junk", "std-trailing-data"}
+		wires = [][]byte{w, with(asn1.RawValue{}), with(asn1.NullRawValue), with(asn1.RawValue{FullBytes: []byte{0x04, 0x02, 0xaa, 0xbb}}), append(append([]byte{}, w...), 0)}
+	} else {
+		ev.Class = fmt.Sprintf("%s/len%d", c.C.Key.OID, c.C.Key.Body)
+		arcs := arcsOf(c.M.Arcs)
+		body := bodyOf(c.C.Key, v, r)
+		forms = c.M.Forms
+		ev.MAcc = c.M.Accepts
+		for _, f := range forms {
+			switch f {
+			case "other-body":
+				ob := make([]byte, len(body))
+				r.Read(ob)
+				wires = append(wires, buildDER("canonical", arcs, ob, r, v))
+			case "other-oid":
+				oa := []int{1, 3, 101, 113}
+				if c.C.Key.OID == "ed448" {
+					oa = []int{1, 3, 101, 112}
+				}
+				wires = append(wires, buildDER("canonical", oa, body, r, v))
+			default:
+				wires = append(wires, buildDER(f, arcs, body, r, v))
+			}
+		}
+	}
+	n := len(forms)
+	ev.Forms, ev.Acc, ev.M, ev.Idem, ev.FpK, ev.FpQ = forms, make([]bool, n), make([]string, n), make([]bool, n), make([]string, n), make([]string, n)
+	ev.Eq = make([][]bool, n)
+	keys := make([]x509.PublicKey, n)
+	for i, w := range wires {
+		ev.Eq[i] = make([]bool, n)
+		k, err := x509.ParsePublicKey(w)
+		if err != nil {
+			continue
+		}
+		ev.Acc[i], keys[i] = true, k
+		m := x509.MarshalPublicKey(nil, &k)
+		ev.M[i] = derHex(m)
+		if k2, err := x509.ParsePublicKey(m); err == nil {
+			ev.Idem[i] = bytes.Equal(x509.MarshalPublicKey(nil, &k2), m)
+		}
+		fk, fq := p2pkeswarm.DefaultFingerprinter(&k), quicswarm.DefaultFingerprinter(k)
+		ev.FpK[i], ev.FpQ[i] = hex.EncodeToString(fk[:]), hex.EncodeToString(fq[:])
+	}
+	for i := range wires {
+		for j := range wires {
+			ev.Eq[i][j] = ev.Acc[i] && ev.Acc[j] && x509.EqualPublicKeys(&keys[i], &keys[j])
+		}
+	}
 }
 
 // ---- peer id texts, mirroring TextOf of spec/Keys.tla (variant 0 must equal the model's text)
@@ -473,6 +603,13 @@ func runKeys(in string, w *trace.Writer, seed int64, variants int) string {
 					h.fpBoth(&k1, "DefaultFingerprinter(ParsePublicKey(non-canonical DER: "+c.C.Form+"))")
 					reg.LoadVerifier(&k1)
 					reg.ParseVerifier(der)
+				case "wires":
+					runWires(&ev, &c, v, r)
+					for i := range ev.Forms {
+						if ev.Acc[i] {
+							h.nwires++
+						}
+					}
 				case "idtext":
 					ev.Class = fmt.Sprintf("%s/%s/%s@%d", c.C.ID, c.C.TC.T, c.C.TC.C, c.C.TC.P)
 					base := idFrom(c.M.IDBytes)
@@ -525,6 +662,12 @@ func runKeys(in string, w *trace.Writer, seed int64, variants int) string {
 			if p {
 				ev.Panic, ev.PanicV = true, clip(what, 120)
 			}
+			if ev.Forms == nil {
+				ev.Forms, ev.Acc, ev.MAcc, ev.M, ev.Idem, ev.FpK, ev.FpQ, ev.Eq = []string{}, []bool{}, []bool{}, []string{}, []bool{}, []string{}, []string{}, [][]bool{}
+			}
+			if ev.MAcc == nil {
+				ev.MAcc = []bool{}
+			}
 			for _, f := range []*[]int{&ev.TB, &ev.ID, &ev.Back, &ev.A, &ev.B, &ev.TA, &ev.UBack} {
 				if *f == nil {
 					*f = []int{} // TLC's Json module cannot read null
@@ -534,5 +677,5 @@ func runKeys(in string, w *trace.Writer, seed int64, variants int) string {
 			nev++
 		}
 	}
-	return fmt.Sprintf("cases=%d events=%d fp_events=%d wall=%.1fs", n, nev, h.nfp, time.Since(t0).Seconds())
+	return fmt.Sprintf("cases=%d events=%d fp_events=%d accepted_wires=%d wall=%.1fs", n, nev, h.nfp, h.nwires, time.Since(t0).Seconds())
 }
